@@ -65,7 +65,7 @@ contract(
             "for s in nodes(source) if has_attr(source, s, 'bonding') "
             "for t in nodes(target) if has_attr(target, t, 'bonding') "
             "for a in attr(source, s, 'bonding') for b in attr(target, t, 'bonding'))"}},
-    modifies=[], opaque=['spec_compatible', 'kind_ok'],
+    modifies=[], abstract=['spec_compatible', 'kind_ok'],
     loops={
         0: Loop(over='source_nodes', invariant=[
             "all(" + _NOPAIR + " for i in range(_i0) for j in range(len(target_nodes)) "
